@@ -25,7 +25,7 @@ class Contract:
 
     def __init__(self, key, params=None, cases=None, requires=None, ensures=None, raises=None, modifies=None,
                  havoc=None, result=None, assumed=False, props=(), closure_of=None, doc="", pure=False,
-                 inline_at_calls=False, normal_when=None):
+                 inline_at_calls=False, normal_when=None, ghost_entry=None):
         self.key, self.params = key, params
         self.cases = cases or []
         self.requires = requires or (lambda c, a: True)
@@ -36,6 +36,7 @@ class Contract:
         self.result = result or (lambda c, a: None)
         self.assumed, self.props, self.closure_of, self.doc, self.pure = assumed, tuple(props), closure_of, doc, pure
         self.inline_at_calls, self.normal_when = inline_at_calls, normal_when
+        self.ghost_entry = ghost_entry  # ghost statements executed at function entry when the body is verified
 
 
 class Engine:
@@ -417,6 +418,14 @@ class Engine:
                     return bytes(val).decode("utf-8")
                 except UnicodeDecodeError:
                     raise py_exc(UnicodeDecodeError)
+            errors = args[1] if len(args) > 1 else kwargs.get("errors", "strict")
+            if errors in ("replace", "ignore"):
+                # never raises; equals the strict decoding on well-formed input, unspecified otherwise
+                if c.branch(smt.wf_utf8(val.t)):
+                    return SV("str", smt.utf8_dec(val.t))
+                return SV("str", smt.fresh(smt.S, "lossy"))
+            if errors != "strict":
+                raise Undecided(f"decode(errors={errors!r})")
             if not c.branch(smt.wf_utf8(val.t)):
                 raise py_exc(UnicodeDecodeError)
             return SV("str", smt.utf8_dec(val.t))
@@ -541,20 +550,26 @@ class Engine:
             def run_path(c, setup=setup):
                 self.current_target = key
                 a = setup(c)
-                parent = a.pop("$closure", None)
+                parent = a.get("$closure", None)
                 pframe = None
                 if parent is not None:
                     pframe = Frame(qual.rsplit(".<locals>.", 1)[0], mod, parent, None, None)
                 c.assume(ct.requires(c, a))
                 old = c.snapshot()
+                if ct.ghost_entry:
+                    ct.ghost_entry(c, a)
                 bound = {k: v for k, v in a.items() if not k.startswith("$")}
                 try:
                     kwname = fnode.args.kwarg.arg if fnode.args.kwarg else None
                     extra_kw = bound.pop(kwname, None) if kwname else None
+                    vaname = fnode.args.vararg.arg if fnode.args.vararg else None
+                    extra_va = bound.pop(vaname, None) if vaname else None
                     dframe = pframe or Frame("<defaults>", mod, {}, None, None)
                     bound = self.interp.bind_args(c, fnode, [], dict(bound), lambda d: self._default(c, d, dframe), qual)
                     if extra_kw is not None:
                         bound[kwname] = extra_kw
+                    if extra_va is not None:
+                        bound[vaname] = extra_va
                     res = self.interp.run_function(c, fnode, mod, dict(bound), qual, parent=pframe)
                 except PyExc as pe:
                     exc = pe.exc
